@@ -29,7 +29,7 @@ CONSTANTS N,        \* largest tree (headers below the root)
           NMin,     \* smallest tree chosen in Init
           Adj,      \* allowed difficulty steps of a child ("all" family)
           D0,       \* difficulty (= total difficulty) of the trust root
-          Family,   \* "all": every labelled tree; "shortheavy": two chains LA (slow) / LB (fast) interleaved
+          Family,   \* "all": every labelled tree; "shortheavy[-sample]": two chains LA (slow) / LB (fast) interleaved
           LA, LB, AdjA, AdjB,
           InOrder,  \* TRUE: headers become stored in label order (generation); FALSE: any order (model checking)
           EmitOn
@@ -61,12 +61,17 @@ MkTree(nn, p, a) == [n |-> nn, par |-> p, adj |-> a,
                      ht |-> [x \in 0..nn |-> HtOf(p, x)]]
 (* two chains from the root: the labels in B form the fast chain, the others the slow one *)
 PrevIn(S, i) == LET L == {j \in S : j < i} IN IF L = {} THEN 0 ELSE CHOOSE j \in L : \A k \in L : k <= j
+(* "shortheavy": every interleaving; "shortheavy-sample": the fast chain submitted as one block at every position of
+   the slow one, and the two alternating *)
+BSets == LET nn == LA + LB IN
+         IF Family = "shortheavy" THEN {S \in SUBSET (1..nn) : Cardinality(S) = LB}
+         ELSE {lo..(lo + LB - 1) : lo \in 1..(LA + 1)} \cup {{2 * i : i \in 1..LB}} \cup {{2 * i - 1 : i \in 1..LB}}
 ChainTrees == LET nn == LA + LB IN
     { MkTree(nn, [i \in 1..nn |-> IF i \in B THEN PrevIn(B, i) ELSE PrevIn((1..nn) \ B, i)],
-                 [i \in 1..nn |-> IF i \in B THEN AdjB ELSE AdjA]) : B \in {S \in SUBSET (1..nn) : Cardinality(S) = LB} }
+                 [i \in 1..nn |-> IF i \in B THEN AdjB ELSE AdjA]) : B \in BSets }
 AllTrees == UNION { {MkTree(nn, p, a) : p \in ParSets(nn), a \in [1..nn -> Adj]} : nn \in NMin..N }
-Trees == IF Family = "shortheavy" THEN ChainTrees ELSE AllTrees
-MaxN == IF Family = "shortheavy" THEN LA + LB ELSE N
+Trees == IF Family = "all" THEN AllTrees ELSE ChainTrees
+MaxN == IF Family = "all" THEN N ELSE LA + LB
 
 Par(x) == IF x = 0 THEN None ELSE tree.par[x]
 Ht(x) == tree.ht[x]
